@@ -746,6 +746,19 @@ def _o_convert(w):
         return False, "to_v2 changed the unique id"
     if v0b.serialize() != v0.serialize() or Psbt.parse(v0.serialize()).tx != tx:
         return False, "to_v0 . to_v2 . to_v0 differs from to_v0, or the v0 bytes carry another transaction"
+    # over the wire: what each version writes reads back as the same transaction (a field `serialize` drops --
+    # a sequence of 0, an output index of 0 -- comes back as its default, i.e. as another transaction)
+    for what, q in (("p", p), ("to_v2(p)", p.to_v2()), ("to_v2(to_v0(p))", v2), ("to_v0(p)", v0)):
+        try:
+            back = Psbt.parse(q.serialize())
+        except Exception as e:  # noqa: BLE001
+            return False, f"{what}: its own serialisation does not parse: {e}"
+        if back.tx != tx:
+            seqs = [(a.sequence, b.sequence) for a, b in zip(tx.vin, back.tx.vin) if a.sequence != b.sequence]
+            return False, (f"{what} -> wire -> parse is another transaction: lock_time {tx.lock_time} -> "
+                           f"{back.tx.lock_time}, sequences (sent, read back) {seqs[:3]}")
+        if q.version == 2 and render(back) != render(q):      # version 0 states sequence and lock time in its tx
+            return False, f"{what} -> wire -> parse reads back other fields"
     return True, f"lock_time {tx.lock_time}"
 
 
@@ -948,6 +961,81 @@ def _o_accounting(w):
 
 
 ORACLES.update({"signer.accounting": _o_accounting})
+
+
+# ------------------------------------------------------------------ every entry point, with nothing to do
+def _foreign_signer(musig2=False):
+    from btclib.bip32 import rootxprv_from_seed
+    from btclib.psbt_signer import SoftwareSigner
+    return SoftwareSigner(rootxprv_from_seed(bytes(range(1, 33))), musig2=musig2)
+
+
+def _idle_calls():
+    from btclib import psbt_signer as S
+    from btclib import psbt_signer_contract as SC
+    from btclib import tx_or_psbt as TP
+    from btclib.bip32 import rootxprv_from_seed, xpub_from_xprv
+    from btclib.psbt import musig2 as MU
+    from btclib.psbt import silent_payments as SP
+    agg = _pub(PRV[0])
+    return {
+        "SoftwareSigner.sign_psbt[holds none of the keys]": lambda p: _foreign_signer().sign_psbt(p),
+        "SoftwareSigner(musig2).sign_psbt[holds none of the keys]": lambda p: _foreign_signer(True).sign_psbt(p),
+        "SoftwareSigner.sign_psbt[watch-only]":
+            lambda p: S.SoftwareSigner(xpub_from_xprv(rootxprv_from_seed(bytes(range(1, 33))))).sign_psbt(p),
+        "SignerDecorator.sign_psbt[holds none of the keys]": lambda p: S.SignerDecorator(_foreign_signer()).sign_psbt(p),
+        "request_signatures[SoftwareSigner, holds none of the keys]": lambda p: S.request_signatures(_foreign_signer(), p),
+        "request_signatures[SignerDecorator]": lambda p: S.request_signatures(S.SignerDecorator(_foreign_signer()), p),
+        "assert_psbt_signer[signable]": lambda p: SC.assert_psbt_signer(_foreign_signer(), signable=p),
+        "tx_or_psbt_from_any": lambda p: TP.tx_or_psbt_from_any(p.b64encode()),
+        "sign[no key]": lambda p: sign(p, KM([0x7777]))[0],
+        "new_signers": lambda p: M.new_signers(p, p),
+        "assert_signed[allow_partial]": lambda p: M.assert_signed(p, allow_partial=True),
+        "extract_tx": lambda p: M.extract_tx(p),
+        "sp.eligible_pub_keys": lambda p: SP.eligible_pub_keys(p),
+        "sp.output_scripts": lambda p: SP.output_scripts(p),
+        "sp.assert_as_valid": lambda p: SP.assert_as_valid(p),
+        "sp.assert_shares_as_valid": lambda p: SP.assert_shares_as_valid(p),
+        "sp.assert_eligibility_as_valid": lambda p: SP.assert_eligibility_as_valid(p),
+        "sp.assert_output_scripts_as_valid": lambda p: SP.assert_output_scripts_as_valid(p),
+        "musig2.session_context": lambda p: MU.session_context(p, 0, agg),
+        "musig2.partial_sigs_agg": lambda p: MU.partial_sigs_agg(p, 0, agg),
+        "musig2.assert_valid_participants": lambda p: MU.assert_valid_participants(p.inputs[0]),
+    }
+
+
+def _o_idle(w):
+    """an entry point that has nothing to do for this psbt (a signer holding none of its keys, a reader, a check):
+    the psbt handed in is left exactly as it was, and a psbt handed back is a fresh object -- never the caller's."""
+    d = unpayload(w["payload"])
+    p, name = d["psbt"], w["entry"]
+    fn = _idle_calls()[name]
+    before = (render(p), p.serialize(check_validity=False))
+    ids = _mutable_ids(p)
+    try:
+        r = fn(p)
+    except BTClibValueError as e:
+        ok = (render(p), p.serialize(check_validity=False)) == before
+        return ok, f"{name} refused ({str(e)[:50]}); argument unchanged={ok}"
+    except Exception as e:  # noqa: BLE001
+        return False, f"{name} raised {type(e).__name__}: {e}"
+    if (render(p), p.serialize(check_validity=False)) != before:
+        return False, f"{name} modified the psbt handed in although it had nothing to do"
+    if isinstance(r, Psbt):
+        if r is p:
+            return False, f"{name} returned the caller's own psbt object: updating the answer updates the request"
+        shared = _mutable_ids(r) & ids
+        if shared:
+            return False, f"{name} returned a psbt sharing {len(shared)} mutable parts with the one handed in"
+        if render(r) != before[0] and not name.startswith(("sign", "request", "Software", "Signer")):
+            return False, f"{name} returned another psbt"
+        _scramble(r)
+        if (render(p), p.serialize(check_validity=False)) != before:
+            return False, f"{name}: updating the answer changed the psbt handed in"
+    return True, f"{name}: left alone"
+
+
+ORACLES.update({"roles.idle": _o_idle})
 
 
 # ------------------------------------------------------------------ streams
@@ -1216,6 +1304,14 @@ def run(ctx):
             ctx.count("fresh", role + _a(arg))
             ctx.check("roles.fresh", {"payload": payload({"role": role, "arg": arg, "psbts": ps}),
                                       "role": role + _a(arg)}, key=f"roles.fresh.{role}")
+    # ---- every entry point of the anchors, given nothing to do
+    for _ in range(ctx.n(4, 40)):
+        p = built(rng, rng.choice([0, 2]))
+        if rng.random() < 0.5:
+            p = sign(p, KM([PRV[0]]))[0]
+        for name in _idle_calls():
+            ctx.count("idle", name)
+            ctx.check("roles.idle", {"payload": payload({"psbt": p}), "entry": name}, key=f"roles.idle.{name.split('[')[0]}")
     # ---- conversions on psbts whose lock time BIP370's rule decides
     lock_lines = []
     combos = [(sh, fc) for sh in LOCK_SHAPES for fc in LOCK_FALLBACKS]
@@ -1231,6 +1327,10 @@ def run(ctx):
         tok = render(p)
         lock_lines.append(f"tov0 {tok} " + payload({"op": "tov0", "psbt": p}))
         lock_lines.append(f"tx {tok} 0 " + payload({"op": "tx", "psbt": p, "for_id": False}))
+    for _ in range(ctx.n(30, 300)):
+        q = built(rng, rng.choice([0, 2]))
+        q.inputs[0].sequence = 0
+        ctx.check("convert.identity", {"payload": payload({"psbt": q}), "class": "built sequence=0"}, key="convert.identity")
     ctx.correspond("psbt.convert-locktime", EXE, [(ln, impl(ln)) for ln in lock_lines],
                    nontrivial=lambda ln, out: True, key="psbt.convert")
     for sh, fc in combos:
